@@ -135,7 +135,7 @@ VERIF_TARGET(c16_workload, nullptr, 32, 600,
              "after a mock-time jump | invalidate+reconsider tip | manual prune; every crash image is judged by c16_recover")
 {
     std::vector<std::string> keep;
-    uint64_t batch = s.pick<uint64_t>({150, 400, 1000, 2000, 16 << 20});
+    uint64_t batch = s.pick<uint64_t>({100, 150, 300, 700, 2000, 16 << 20});
     ChainSimOpts o = DiskOpts(keep, batch, /*prune=*/true);
     std::string tmpl = Env("VH_C16_TEMPLATE");
     o.before_load = [tmpl](const fs::path& d) { if (!tmpl.empty()) CopyDir(fs::PathFromString(tmpl), d); Mark("copied"); };
@@ -156,14 +156,14 @@ VERIF_TARGET(c16_workload, nullptr, 32, 600,
             int height = sim.ledger.At(parent).height + 1;
             std::vector<CTransactionRef> txs;
             CAmount fees = 0;
-            unsigned ntx = s.range<unsigned>(0, 4);
+            unsigned ntx = s.range<unsigned>(0, 8);
             RefUtxo u = pr.utxo;
             for (unsigned t = 0; t < ntx; ++t) {
                 std::vector<std::pair<COutPoint, RefCoin>> spendable;
                 for (auto& [op2, c] : u) if (!(c.coinbase && height - c.height < 100) && c.spk == P2WSH_OP_TRUE) spendable.emplace_back(op2, c);
                 if (spendable.empty()) break;
                 auto in = spendable[s.index(spendable.size())];
-                unsigned nout = s.range<unsigned>(1, 4);
+                unsigned nout = s.range<unsigned>(1, 6);
                 CAmount fee = s.range<CAmount>(0, 10000), rest = in.second.value - fee;
                 std::vector<CTxOut> outs;
                 for (unsigned k = 0; k < nout; ++k) { CAmount v = (k + 1 == nout) ? rest : rest / 2; rest -= v; outs.emplace_back(v, P2WSH_OP_TRUE); }
@@ -256,6 +256,10 @@ VERIF_TARGET(c16_recover, nullptr, 0, 8,
         while (std::getline(f, l)) if (!l.empty()) allowed.insert(l);
     }
     lap("plan-read");
+    {
+        LOCK(cs_main);
+        VCHECK(sim.chainman().ActiveChain().Tip() != nullptr, "c16.no-tip", "node came up with an empty active chain although the datadir held a chainstate");
+    }
     uint256 tip = sim.TipHash();
     st.note("recovered tip h=", sim.TipHeight(), " ", tip.ToString().substr(0, 10));
     VCHECK(allowed.count(tip.ToString()), "c16.tip-never-connected", "recovered tip", tip.ToString(), "height", sim.TipHeight(), "was not a fully connected tip before the cut");
